@@ -171,6 +171,8 @@ def run(ctx):
     # ---- random formulas -----------------------------------------------------------------
     n_domains = 14 if thorough else 6
     for d in range(n_domains):
+        if ctx.over_budget():
+            break
         w = gen.gen_world(rng, name_clash=0.25)
         acts = [(gen.gen_params(rng, w), None if d == 0 else ["and"])]  # '()' and '(and)' are always present
         acts[0] = (acts[0][0], [] if d % 2 == 0 else ["and"])
